@@ -528,6 +528,12 @@ class ProgGen:
                 c = [w["ty"] for w in rg.avail() if p[1] == "A" or not lin(w["ty"])]
                 t = self.r.choice(c) if c and self.r.random() < 0.7 else self.ctype(1)
                 targs.append(["t", t])
+            elif p[0] == "N":
+                targs.append(["n", self.r.choice([0, 3, 6])])
+            elif p[0] == "S":
+                targs.append(["s", self.r.choice(["", "ärg"])])
+            elif p[0] == "E":
+                targs.append(["exts", []])
             else:  # ["L", ["T", b]]
                 n = self.r.choice([0, 1, 2, 3]) if arity is None else arity
                 targs.append(["seq", [["t", self.ctype(1) if p[1][1] == "C" or self.r.random() < 0.6 else Q]
@@ -848,6 +854,11 @@ class ProgGen:
             tparams = [["T", r.choice(["C", "A"])] for _ in range(r.randint(1, 2))]
             ins = ins + [["var", i, p[1]] for i, p in enumerate(tparams) for _ in range(r.randint(1, 2))]
             r.shuffle(ins)
+            if r.random() < 0.35:
+                # a further parameter that is not a type (unbounded / bounded nat, string, extension set); the body
+                # cannot mention it, calls have to supply an argument for it
+                tparams.append(r.choice([["N", None], ["N", None], ["N", 7], ["S"], ["E"]]))
+                self.feat("non-type-param")
         fid = self.nid()
         params = [self.wire(t) for t in ins]
         declare = (r.random() < 0.4 and not poly) if declare is None else declare
